@@ -3,6 +3,7 @@ import Pcore.Proofs.LatEq
 import Pcore.Proofs.LatTransAll
 import Pcore.Proofs.LatTransGAll
 import Pcore.Proofs.LatTransDMain
+import Pcore.Proofs.LatReflAll
 set_option linter.unusedSimpArgs false
 /-!
 # C03 — Assignability is a preorder, monotone per constructor, consistent with equality
@@ -23,6 +24,9 @@ Full statement / proved / missing
   separately constructed or re-parsed copy is the same term, so this is "A accepts a copy of A".  `C03_refl_eq` PROVED: types that are
   `Equals` (`tyEq`, the mirror of every `Equals` method) accept each other, also when they are not the same term — permuted
   Variant/Enum/Pattern members, Tuple size given vs implied; also checked on the implementation for every generated pair (`eq-not-asg-*`).
+  `C03_refl_all` PROVED: A accepts A for EVERY well-formed type, Data / RichData nested anywhere (the left-weakening principle stopped at
+  an alias on the right; `weaken_variant_all` / `weaken_optional_all` do not); likewise `C03_variant_all`, `C03_optional_all`,
+  `C03_mono_variant_all`, `C03_mono_optional_all` without the `NoAlias` / `NoAliasR` side conditions.
 * laws — `C03_top`, `C03_unit`, `C03_variant`, `C03_optional` PROVED.
 * monotonicity — PROVED for every covariant hole the property lists: `C03_mono_array`, `C03_mono_hash_key`, `C03_mono_hash_value`,
   `C03_mono_tuple` (any slot), `C03_mono_struct` (any member's value type), `C03_mono_variant`, `C03_mono_optional`, `C03_mono_notUndef`,
@@ -96,6 +100,30 @@ theorem C03_optional (cfg : Cfg) (sfh : Bool) (a : Ty) (hwf : Ty.WF cfg a) (hna 
     asg cfg sfh (.optional a) a = true ∧ asg cfg sfh (.optional a) .undef = true :=
   ⟨weaken_optional cfg sfh a a (Ty.NoAlias.noAliasR a.w a (Nat.le_refl _) hna) (C03_refl cfg sfh a hwf hna),
    asg_optional_undef cfg sfh a⟩
+
+/-! ### reflexivity and the Variant / Optional laws with the built-in aliases nested anywhere -/
+/-- A accepts A for EVERY well-formed type: Data / RichData may be nested anywhere (below Variant / Optional / NotUndef included) -/
+theorem C03_refl_all (cfg : Cfg) (sfh : Bool) (a : Ty) (hwf : Ty.WF cfg a) : asg cfg sfh a a = true :=
+  asg_refl_all cfg sfh a.w a (Nat.le_refl _) hwf
+
+theorem C03_variant_all (cfg : Cfg) (sfh : Bool) (ts : List Ty) (a : Ty) (hm : a ∈ ts) (hwf : Ty.WF cfg a) :
+    asg cfg sfh (.variant ts) a = true := wv_all cfg sfh hm (C03_refl_all cfg sfh a hwf)
+
+theorem C03_optional_all (cfg : Cfg) (sfh : Bool) (a : Ty) (hwf : Ty.WF cfg a) :
+    asg cfg sfh (.optional a) a = true ∧ asg cfg sfh (.optional a) .undef = true :=
+  ⟨wo_all cfg sfh (C03_refl_all cfg sfh a hwf), asg_optional_undef cfg sfh a⟩
+
+/-- the two monotonicity laws that went through the left-weakening principle, now for any `b` (an alias on the right included) -/
+theorem C03_mono_variant_all (cfg : Cfg) (sfh : Bool) (pre post : List Ty) (a b : Ty)
+    (hsib : ∀ t ∈ pre ++ post, Ty.WF cfg t) (h : asg cfg sfh a b = true) :
+    asg cfg sfh (.variant (pre ++ a :: post)) (.variant (pre ++ b :: post)) = true :=
+  mono_variant_all cfg sfh pre post a b (fun t ht => C03_refl_all cfg sfh t (hsib t ht)) h
+theorem C03_mono_optional_all (cfg : Cfg) (sfh : Bool) (a b : Ty) (h : asg cfg sfh a b = true) :
+    asg cfg sfh (.optional a) (.optional b) = true := mono_optional_all cfg sfh a b h
+
+/-- non-vacuity: a well-formed type with both aliases below a Variant below an Optional -/
+example (cfg : Cfg) : Ty.WF cfg (.optional (.variant [.data, .array .richData Rng.pos, .struct [("a", true, .data)]])) := by
+  simp [Ty.WF]
 
 /-! ### monotone per covariant hole -/
 theorem C03_mono_array (cfg : Cfg) (sfh : Bool) (a b : Ty) (r : Rng) (h : asg cfg sfh a b = true) :
